@@ -240,11 +240,19 @@ func suiteC18(r *Run) {
 			var err1, err2 error
 			func() { defer recoverTo(&pan); _, err1 = ad.c.Clone(&notProto{A: 1}) }()
 			func() { defer recoverTo(&pan); err2 = ad.c.Copy(&notProto{}, &notProto{A: 2}) }()
+			// …and a protobuf source into a destination that is not a protobuf message (only the decode step can refuse it)
+			var err3 error
+			dstNP := &notProto{A: 5}
+			func() { defer recoverTo(&pan); err3 = ad.c.Copy(dstNP, src) }()
 			ans := "error"
 			if pan != "" {
 				ans = "panic"
-			} else if err1 == nil || err2 == nil {
+			} else if err1 == nil || err2 == nil || err3 == nil {
 				ans = "ok"
+			}
+			if err3 == nil && pan == "" {
+				r.Violate("cloner/"+ad.name+"/non-proto-destination-not-refused", "a non-nil pointer to something that is not a protobuf message is refused with an error rather than copied shallowly",
+					sprintf("Copy(dst *notProto, src *%s) returned nil (destination now %+v)", k.name, *dstNP), c, "ok")
 			}
 			r.Op(sprintf("C18 %s nonproto", ad.name), ans)
 			r.Eval(fmt.Sprint(ad.name, "nonproto"), true)
